@@ -14,7 +14,8 @@ const BRUTE_MAX: usize = 7; // must equal BruteMax in Trace_C02.tla / Trace_C09.
 
 /// Build the matrix with the given ones. A matrix is a SET of positions: the history of insert() calls (and so the
 /// order of the adjacency lists) must not matter, therefore two thirds of the matrices are built in a shuffled
-/// order derived from their content, the rest in row-major order; one in five through insert_row / insert_col with a repeated index.
+/// order derived from their content, the rest in row-major order; one in five through insert_row / insert_col with a repeated index,
+/// one in five by replacing rows / columns that hold other ones with set_row / set_col.
 pub fn sparse_from_rows(rows: &[Vec<usize>], n: usize) -> SparseMatrix {
     let mut entries: Vec<(usize, usize)> = rows.iter().enumerate().flat_map(|(r, cs)| cs.iter().map(move |&c| (r, c))).collect();
     let salt = entries.iter().fold(n as u64 * 1315423911 + rows.len() as u64, |a, &(r, c)| a.rotate_left(7) ^ ((r as u64) << 20 | c as u64).wrapping_mul(0x9E3779B97F4A7C15));
@@ -22,6 +23,32 @@ pub fn sparse_from_rows(rows: &[Vec<usize>], n: usize) -> SparseMatrix {
         Rng::new(salt).shuffle(&mut entries);
     }
     let mut h = SparseMatrix::new(rows.len(), n);
+    if salt % 5 == 2 {
+        // a fourth history: every row (or column) first holds OTHER ones and is then replaced with set_row (set_col), i.e. clear + insert
+        // on lists that are not empty; half of the replacements run in reverse order
+        let by_rows = salt % 2 == 0;
+        if by_rows {
+            for r in 0..rows.len() {
+                let junk: Vec<usize> = (0..n).filter(|c| (c + r) % 3 == 0 || *c == r).collect();
+                h.insert_row(r, junk.iter());
+            }
+            let mut order: Vec<usize> = (0..rows.len()).collect();
+            if salt % 4 == 0 { order.reverse(); }
+            for r in order { h.set_row(r, rows[r].iter()); }
+        } else {
+            for c in 0..n {
+                let junk: Vec<usize> = (0..rows.len()).filter(|r| (c + r) % 3 == 1 || *r == c).collect();
+                h.insert_col(c, junk.iter());
+            }
+            let mut order: Vec<usize> = (0..n).collect();
+            if salt % 4 == 1 { order.reverse(); }
+            for c in order {
+                let l: Vec<usize> = (0..rows.len()).filter(|&r| rows[r].contains(&c)).collect();
+                h.set_col(c, l.iter());
+            }
+        }
+        return h;
+    }
     if salt % 5 == 1 {
         // a third history: the bulk operations, each list given with its first index REPEATED at the end (positions drawn with
         // replacement, colliding quasi-cyclic offsets): a repeated index means a single one
